@@ -11,6 +11,7 @@ func kindRuleTexts(r *Report) {
 	r.Rule("FLOOR-NOBIAS", "the operand of a math.Floor that feeds a grid index is not an expression plus/minus a non-zero constant (a biased floor moves points across cell boundaries)")
 	r.Rule("KIND-CALL", "at every call of a function with a role table entry, an argument whose component kind is inferred must have the kind of its parameter (hZoom vs vZoom, x vs y vs f, maxHeight vs minHeight, ...); ID strings must have the layout the callee documents")
 	r.Rule("KIND-LAYOUT", "every ID string a function returns has, field by field, the canonical layout hZoom/x/y/vZoom/f (extended) or z/f/x/y (spatial), each field carrying the kind of its own axis")
+	r.Rule("REM-SIGN", "a horizontal index moved by a possibly negative amount (negated bound, negative constant, signed shift parameter, index minus a positive constant) is not reduced with Go's % alone: the remainder keeps the sign of the dividend; accepted corrections: a sign test of the remainder, (r + n) % n, the modulus added before reducing")
 	r.Rule("KIND-STORE", "a value stored into a struct field has the component kind of that field (as defined by the field's exported getter)")
 }
 
@@ -91,6 +92,7 @@ func runC03(w *World, r *Report, tier string) {
 		ruleNoClamp(w, r, n)
 	}
 	ruleCacheKey(w, r, cl)
+	ruleNoSkip(w, r, "integrate.ChangeExtendedSpatialIdsZoom")
 	guardRows(w, r, "C03")
 }
 
